@@ -872,7 +872,23 @@ func (g *Gen) loopCombos(body []*Ast, depth int) []*Ast {
 		}
 		return a
 	}
-	switch r.Intn(4) {
+	switch r.Intn(5) {
+	case 4:
+		// a nested loop leaves with break / lazybreak 2, then the enclosing iteration ends in a continue
+		if depth >= g.p.MaxDepth {
+			return body
+		}
+		g.tag("combo:inner-breakN-then-continue")
+		inner := &Ast{K: "cloop", Var: g.newVar("i"), Init: "0", InitLit: true, Op: "<", Lim: "3", LimLit: true, Step: "++"}
+		inner.Body = []*Ast{{K: "text", Text: g.marker()}, {K: "print", Path: inner.Var}, {K: []string{"break", "lazybreak"}[r.Intn(2)], N: 2, Cond: &ACond{L: inner.Var, Op: "==", R: "1", RLit: true}}}
+		if g.budget < 6 {
+			g.budget = 6
+		}
+		co := &Ast{K: "continue"}
+		if r.Chance(50) {
+			co.Cond = g.genLoopCond()
+		}
+		return append(body, inner, &Ast{K: "text", Text: g.marker()}, co, &Ast{K: "text", Text: g.marker()})
 	case 0:
 		// lazybreak, then a continue later in the same iteration
 		g.tag("combo:lazy-continue")
